@@ -20,8 +20,13 @@ def gen_behaviours(tier, seed):
     behaviours = []
     r2 = vlib.run_tlc("LayoutMC", "Layout.bfs.export.cfg", workers=4, timeout=900)
     vlib.tlc_must_pass(r2, "Layout.bfs.export.cfg")
-    behaviours += r2["traces"]
-    stats["bfs_export"] = {"generated": r2["generated"], "distinct": r2["distinct"], "traces": len(r2["traces"])}
+    bfs = r2["traces"]
+    if tier == "quick" and len(bfs) > 2000:      # seeded sample in the quick tier, all of them in thorough
+        import random
+        rnd = random.Random(seed)
+        bfs = rnd.sample(bfs, 2000)
+    behaviours += bfs
+    stats["bfs_export"] = {"generated": r2["generated"], "distinct": r2["distinct"], "traces": len(r2["traces"]), "replayed": len(bfs)}
     nsim = 150 if tier == "quick" else 3000
     r3 = vlib.run_tlc("LayoutMC", "Layout.sim.cfg", simulate=nsim, depth=18, seed=seed, timeout=3000)
     vlib.tlc_must_pass(r3, "Layout.sim.cfg")
@@ -59,6 +64,9 @@ def run(tier, seed):
         n = sum(1 for r in known if r["known"] == kid)
         ex = next(r for r in known if r["known"] == kid)
         print(f"KNOWN-FINDING: property={PROP} {kid} re-observed in {n} behaviours, e.g. {ex['detail'][:300]}")
+    kre = sum(r.get("known_read_errors", 0) for r in results)
+    if kre and "F-C04-1" in {f["id"] for f in vlib.load_known("C04")}:
+        print(f"KNOWN-FINDING: property={PROP} F-C04-1 query failed {kre} times with the recovered panic 'slice bounds out of range [4294967288:0]' (retried)")
     viol = 0
     byid = {c["id"]: c for c in cases}
     for r in bad[:5]:
